@@ -49,6 +49,7 @@ vars  == <<alloc, perm, chan, resv, out, last>>
 state == <<alloc, perm, chan, resv>>
 
 Peers    == PeerIPs \X PeerPorts
+StreamClients == Clients \cap {"s1", "s2", "sx"}   \* (sx: the address of s1 once more, connected to a second stream listener)
 NoAlloc  == [live |-> FALSE]
 NoChan   == [bound |-> FALSE]
 NoPerms  == [i \in PeerIPs |-> 0]
@@ -129,7 +130,7 @@ Allocate(c, u, lr, tx, rf, tk) ==
 (* sent: the write on the listening socket fails once.  The allocation exists; the client, which saw nothing,    *)
 (* retransmits -- and Allocate above answers the retransmission (same transaction id) with the same success.     *)
 AllocateLostWrite(c, u, tx) ==
-  /\ c \notin {"s1", "s2"}
+  /\ c \notin StreamClients   \* (a datagram listener: one write, one datagram)
   /\ ~Live(c) /\ u \notin QuotaDenied /\ ~(u \in QuotaOne /\ \E x \in Clients : alloc[x].live /\ alloc[x].user = u)
   /\ last' = [a |-> "AllocateLostWrite", c |-> c, u |-> u, tx |-> tx]
   /\ alloc' = [alloc EXCEPT ![c] =
@@ -242,7 +243,6 @@ PeerData(c, p, pay, len) ==
 (* 5-tuple differs from a datagram client's in the transport only -- the harness gives s1 the IP and   *)
 (* port of c1).  Requests, indications and ChannelData behave as above.  When the control connection  *)
 (* ends the server deletes the allocation of that 5-tuple at once (server.go readLoop, stream case).  *)
-StreamClients == Clients \cap {"s1", "s2"}
 ConnClose(c) ==
   /\ c \in StreamClients
   /\ last' = [a |-> "ConnClose", c |-> c]
